@@ -12,7 +12,7 @@ import random
 from common import *  # noqa
 
 NAMES = ["a", "b", "c", "d", "e", "f", "a ", " b", "A"]      # "a " / " b" / "A" are names of their own (blanks and case are part of a name)
-SALS = [-3, 0, 0, 1, 5, 5, 9, -2 ** 63, 2 ** 63 - 1]      # the int64 extremes: differences of saliences overflow
+SALS = [-3, -1, -7, -7, 0, 0, 1, 5, 5, 9, -2 ** 63, 2 ** 63 - 1]      # the int64 extremes: differences of saliences overflow
 DESCS = ["", "d1", "d2"]
 
 
@@ -97,6 +97,11 @@ def systematic(gen):
     ]
     for i, j in itertools.product(range(len(alts)), repeat=2):
         hs.append([base(), alts[i](), alts[j]()])
+    # salience changes among NEGATIVE neighbours (a rule moving past, or staying between, rules below zero)
+    neg = lambda: {"kind": "full", "rules": [gen.rule("a", 10), gen.rule("b", -1), gen.rule("c", -5), gen.rule("d", -9)]}
+    for (n, sal) in [("b", -7), ("b", -5), ("c", -1), ("c", -10), ("d", -2), ("a", -6), ("b", -1), ("c", 0)]:
+        hs.append([neg(), {"kind": "incr", "rules": [gen.rule(n, sal)]}])
+        hs.append([neg(), {"kind": "incr", "rules": [gen.rule(n, sal), gen.rule("e", -3)]}, {"kind": "remove", "names": ["e"]}])
     # the SAME text submitted again (byte-identical) after the set has been changed by another operation: it must be
     # applied again, not recognised as "already installed"
     for i in range(len(alts)):
